@@ -42,7 +42,8 @@ def _case(draw, tier):
     P = PROFILES[cfg.profile]
     recs = draw_dataset(draw, cfg)
     n = len(recs)
-    inner = draw(st.sampled_from(["kids", "kids", "kids", "tags", "a", "s"]))
+    # (o is the "anything" slot: None, False, 0, '', 1, 'x', True count as single elements; (), [] and (1,) are collections)
+    inner = draw(st.sampled_from(["kids", "kids", "kids", "tags", "a", "s", "o", "o"]))
     if inner == "kids" and chance(draw, 1, 4):
         # make one list repeat an element
         r = recs[draw(st.integers(0, n - 1))]
@@ -71,6 +72,10 @@ def _case(draw, tier):
             return ["cmp", draw(st.sampled_from(["==", "!="])), E, ["var", 0]]
         if inner == "s":
             return ["cmp", draw(st.sampled_from(["==", "!=", "<"])), E, ["const", draw(st.sampled_from(P["strs"]))]]
+        if inner == "o":
+            from ..world import enc
+            return ["cmp", draw(st.sampled_from(["==", "!="])), E,
+                    ["const", enc(draw(st.sampled_from([a_ for a_ in P["anys"] if not isinstance(a_, (list, tuple))])))]]
         return ["cmp", draw(st.sampled_from(CMP_OPS)), E, ["const", draw(st.sampled_from(P["ints"]))]]
 
     def cond_on_p():
@@ -102,7 +107,8 @@ def _case(draw, tier):
             j = draw(st.sampled_from([["cmp", "==", E, ["var", 2]], ["cmp", "!=", E, ["var", 2]],
                                       ["cmp", "<", ["attr", E, "a"], ["attr", ["var", 2], "a"]]]))
         else:
-            j = ["cmp", draw(st.sampled_from(CMP_OPS)), E, ["attr", ["var", 2], "s" if inner == "s" else "a"]]
+            j = ["cmp", draw(st.sampled_from(CMP_OPS if inner != "o" else ["==", "!="])), E,
+                 ["attr", ["var", 2], "s" if inner == "s" else ("o" if inner == "o" else "a")]]
         cond = j
     if kind == "or_and" and inner in ("tags", "kids"):
         # longer inner collections: several elements of one parent fail the conjunction before one satisfies the other side
@@ -114,7 +120,7 @@ def _case(draw, tier):
         vars_.pop()
     sel = draw(st.sampled_from(["entity_e", "e", "p_e", "e_p", "entity_e", "e", "p_e", "e_p"]
                                + (["p_only", "e_attr"] if inner == "kids" and kind not in ("none", "on_p") else [])
-                               + (["p_only", "p_only"] if inner in ("tags", "a") and kind not in ("none", "on_p") else [])
+                               + (["p_only", "p_only"] if inner in ("tags", "a", "o") and kind not in ("none", "on_p") else [])
                                + (["p_only"] * 6 if kind == "or_and" and inner in ("tags", "kids") else [])))
     return {"ents": recs, "doms": doms, "vars": vars_, "inner": inner, "cond": cond, "cond_kind": kind, "select": sel,
             "dom_kind": "list", "split_top": draw(st.booleans())}
